@@ -457,7 +457,9 @@ class WebSocket:
                     return self.cont_frame.extract(frame)
 
             elif frame.opcode == ABNF.OPCODE_CLOSE:
-                self.send_close()
+                # reply once: if our own close frame is already out, this is the peer's answer to it
+                if self.connected:
+                    self.send_close()
                 return frame.opcode, frame
             elif frame.opcode == ABNF.OPCODE_PING:
                 if len(frame.data) < 126:
@@ -493,6 +495,11 @@ class WebSocket:
         """
         if status < 0 or status >= ABNF.LENGTH_16:
             raise ValueError("code is invalid range")
+        if not self.connected:
+            # RFC 6455 5.5.1: an endpoint sends at most one close frame
+            raise WebSocketConnectionClosedException(
+                "close frame already sent or connection is closed."
+            )
         self.connected = False
         self.send(struct.pack("!H", status) + reason, ABNF.OPCODE_CLOSE)
 
